@@ -322,12 +322,16 @@ type ScnCase struct {
 }
 
 func scenario(via string, p Program, bounds []int) schedlib.Scenario {
+	return scenarioIn("", via, p, bounds)
+}
+
+func scenarioIn(family, via string, p Program, bounds []int) schedlib.Scenario {
 	site := "graph.Instance"
 	if via != "instance" {
 		site = "generator.parameterValueEndpoint/ProducerEndpoint"
 	}
 	return schedlib.Scenario{
-		Name: via + ": " + p.String(), Bounds: bounds, MaxPoints: 900, Case: ScnCase{via, p}, Site: site, Whole: true,
+		Name: via + ": " + p.String(), Scope: family, Bounds: bounds, MaxPoints: 900, Case: ScnCase{via, p}, Site: site, Whole: true,
 		Make: func() (func(), func(vsched.Exec) (string, *core.Violation)) {
 			w := build(via)
 			nops := 0
@@ -511,7 +515,7 @@ func run(c *core.Ctx) {
 			if c.Expired() {
 				return
 			}
-			schedlib.Explore(c, rl, scenario(f.via, p, []int{-1}))
+			schedlib.Explore(c, rl, scenarioIn(f.name, f.via, p, []int{-1}))
 		}
 	}
 	if autosaveFile != "" {
